@@ -345,5 +345,31 @@ def run(ctx):
 
 
 def replay(ctx, rep):
-    print("replay: re-run ./check C03 with the recorded seed; case:", {k: v for k, v in rep["case"].items() if k != "data"})
-    return False
+    """re-evaluate the recorded case through all routes of the real code and compare them pairwise"""
+    c = rep["case"]
+    if "data" not in c or "grid" not in c:
+        print("thread / extractor case:", c)
+        return False
+    g = c["grid"]
+    spec = eval(c["spec"], {"array": np.array, "nan": float("nan"), "inf": float("inf")})
+    cls = CLS[g["cls"]]
+    rank = c01.RANKS[c["op"]][0]
+    dim = c01.DIM.get(cls, len(g["shape"]))
+    data = np.array(c["data"]).reshape([dim] * rank + [n + 2 for n in g["shape"]])
+    case = {"grid": g, "rank": rank, "op": c["op"], "opts": c["opts"], "t": c["t"], "spec": spec, "data": data, "cls": cls,
+            "sides": {}}
+    # the sparse-matrix route needs to know whether expression conditions are present
+    case["sides"] = {0: {"kind": "expr" if "expression" in c["spec"] or "expr" in c["spec"] else "const"}}
+    res = real_routes((case, False))
+    ok_routes = {k: np.asarray(v, dtype=float).ravel() for k, v in res.items() if not isinstance(v, str)}
+    for k, v in res.items():
+        if isinstance(v, str):
+            print(f"route {k}: {v}")
+    ref_name = next(iter(ok_routes))
+    ref = ok_routes[ref_name]
+    ok = all(not isinstance(v, str) for v in res.values())
+    for k, v in ok_routes.items():
+        d = float(np.abs(v - ref).max()) if v.shape == ref.shape else float("inf")
+        print(f"route {k}: max |difference to {ref_name}| = {d:.3g}")
+        ok = ok and d <= 1e-10 * (1 + float(np.abs(ref).max()) + 1e3)
+    return ok
